@@ -84,6 +84,14 @@ def synth_cases(tier, seed):
         progs.append(("stmt%d" % i, "fn wrapper(value: T) -> R {\n    %s\n}\n" % st))
     for i, e in enumerate(c16.SWEEP_EXPRS):
         progs.append(("expr%d" % i, "fn wrapper() {\n    let (first_binding_name,) = %s;\n}\n" % e))
+    # the same statements with comments where the formatter has to place them: a trailing comment with a continuation
+    # line after the last statement of a block, a two-line block comment, leading comment lines, a comment before `else`
+    for i, st in enumerate(SYN_STMTS[::2] + ["let (first_binding_name,) = %s;" % e for e in c16.SWEEP_EXPRS[::3]]):
+        progs.append(("cstmt%d.trail" % i, "fn wrapper(value: T) -> R {\n    first();\n    %s // trailing comment, first line\n    // continuation of the trailing comment\n}\n" % st))
+        progs.append(("cstmt%d.block" % i, "fn wrapper(value: T) -> R {\n    %s /* block comment, first line\n       second line of it */\n    last()\n}\n" % st))
+        progs.append(("cstmt%d.lead" % i, "fn wrapper(value: T) -> R {\n    // leading comment\n    // with two lines\n    %s\n\n    /* detached */\n}\n" % st))
+    progs.append(("celse", "fn wrapper() {\n    if condition_one {\n        a();\n    } // why the else\n    // second line\n    else {\n        b(); // trailing in else\n        // continued\n    }\n}\n"))
+    progs.append(("cmatch", "fn wrapper() {\n    match value {\n        // before the arm\n        A => 1, // after the arm\n        // between\n        B => {\n            2 // last expression comment\n            // continued\n        }\n    }\n}\n"))
     for i, it in enumerate(SYN_ITEMS + c16.SWEEP_ITEMS):
         progs.append(("item%d" % i, it + "\n"))
         progs.append(("item%d.nested" % i, "mod outer {\n    mod inner {\n" + it + "\n    }\n}\n"))
@@ -327,7 +335,7 @@ def run(tier, seed, replay):
                 f.write(k + "\n")
     rep.coverage.update({
         "evaluations": len(cases), "pool_runs": n_pool, "synthetic_runs": len(cases) - n_pool, "accepted_and_judged": len(judged), "distinct_nontrivial": n_changed,
-        "synthetic_rule": "%d statement / pattern forms, the expression and item forms of the C16 margin sweep, %d further item forms (rare modifiers, negative impls, restricted visibilities, GATs, attributes; each also two modules deep) and %d macro_rules definitions whose bodies use identifiers containing z<metavariable>, x %d layout presets (Block / Visual indent, style edition 2024, vertical parameters, next-line braces, Max heuristics) x every max_width 20..130 (quick: one width in six, selected by the seed)" % (len(SYN_STMTS), len(SYN_ITEMS), len(SYN_MACRO_VARS), len(SYN_PRESETS)),
+        "synthetic_rule": "%d statement / pattern forms, the expression and item forms of the C16 margin sweep, %d further item forms (rare modifiers, negative impls, restricted visibilities, GATs, attributes; each also two modules deep), half of the statements again with trailing / block / leading comments that have continuation lines, and %d macro_rules definitions whose bodies use identifiers containing z<metavariable>, x %d layout presets (Block / Visual indent, style edition 2024, vertical parameters, next-line braces, Max heuristics) x every max_width 20..130 (quick: one width in six, selected by the seed)" % (len(SYN_STMTS), len(SYN_ITEMS), len(SYN_MACRO_VARS), len(SYN_PRESETS)),
         "not_judged_option_outside_validator": n_unjudged,
         "rule": "fixed grid: committed pool (%d programs) x layouts %s x presets %s x max_width %s; thorough = whole grid, quick = the 1/%d slice selected by the seed. For every run rustfmt accepts: (1) the output is formatted again in process and must be accepted by the parser; (2) the rustc_lexer token streams of input and output are normalised by the extracted, proved `norm` under the run's options and must be equal; (3) a sample is re-evaluated by vm_compute in Coq. Cases whose configuration sets one of %s to true are not judged (these options rewrite tokens in ways the validator does not implement), nor are %s" % (len(P), GRID_LAYOUTS, GRID_PRESETS, GRID_WIDTHS, MOD, sorted(UNJUDGED), INCOMPLETE),
         "programs": len(P),
